@@ -13,6 +13,10 @@ from checks import c10
 
 TSAN_ENV = {"TSAN_OPTIONS": "halt_on_error=0 exitcode=66 report_signal_unsafe=0 history_size=4 second_deadlock_stack=1"}
 
+# the instrumented binary is 5-15x slower and the machine may be shared: scale the answer timeouts of the C10 scripts
+TS_SCALE = float(os.environ.get("VERIF_C09_TSCALE", "6"))
+TS_WALL = float(os.environ.get("VERIF_C09_WALL", "400"))
+
 # positions for `proofgame -f` (legal opening / early middle-game positions: the filter finds proof games or gives up)
 FENS = [
     "rnbqkbnr/pppppppp/8/8/4P3/8/PPPP1PPP/RNBQKBNR b KQkq - 0 1",
@@ -109,7 +113,7 @@ def run(ctx):
                 if ctx.violations: break
         else:
             for attempt in range(5):
-                s = c10.replay_session(ctx, dict(rp, env=dict(rp.get("env", {}), **TSAN_ENV)), "tsan")
+                s = c10.replay_session(ctx, dict(rp, env=dict(rp.get("env", {}), **TSAN_ENV)), "tsan", wall=TS_WALL, tscale=TS_SCALE)
                 print(s.stderr[-2500:])
                 judge_tsan_sessions(ctx, [s], "replay")
                 c10.judge(ctx, [s], "replay", check_accept=bool(s.events))
@@ -131,12 +135,12 @@ def run(ctx):
     scripts = c10.SCRIPTS if not quick else {k: v for k, v in c10.SCRIPTS.items()}
     plain = c10.make_sessions(ctx, texel, net, per, range(2, 9), want_events=False, yields=False, scripts=scripts)
     for s in plain:
-        s.env.update(TSAN_ENV); s.wall = 120.0
+        s.env.update(TSAN_ENV); s.wall = TS_WALL; s.tscale = TS_SCALE
     # (2) engine sessions, hooks on (event log + yields), accepted by the model
     hooked = c10.make_sessions(ctx, texel, net, 1 if quick else 2, (2, 3, 5, 8) if quick else range(2, 9), want_events=True, yields=True,
                                scripts={k: c10.SCRIPTS[k] for k in (("go-stop", "threads-change", "quit-during-search") if quick else c10.SCRIPTS)})
     for s in hooked:
-        s.env.update(TSAN_ENV); s.wall = 120.0
+        s.env.update(TSAN_ENV); s.wall = TS_WALL; s.tscale = TS_SCALE
     t0 = time.time()
     c10.run_sessions(plain + hooked, 4)
     ctx.log(f"{len(plain)} + {len(hooked)} TSan engine sessions in {time.time() - t0:.1f}s")
